@@ -44,7 +44,7 @@ THEOREMS = {
             "Obligations.codec_clear_rule", "Obligations.codec_clear_position", "Obligations.C04_extracted_after_drops",
             "Obligations.codec_escape_format", "Obligations.codec_events",
             "Obligations.codec_user_codecs", "Obligations.C04_extracted"],
-    "C11": ["Codec.C11_events_exact", "Codec.C11_cache_growth_iff", "Codec.C11_queue_growth_iff", "Codec.C11_no_events", "Codec.C11_steady_state",
+    "C11": ["Codec.C11_events_exact", "Codec.C11_cache_growth_iff", "Codec.C11_queue_growth_iff", "Codec.C11_no_events", "Codec.C11_steady_state", "Codec.C11_steady_state_after_any_history", "Codec.C11_growTo_fuel_suffices",
             "Codec.C11_cstr_budget", "Codec.C11_container_slots", "Codec.C11_drained_fits_iff", "Codec.C11_no_events_after_drain",
             "Codec.C11_oversize_allocates", "Codec.C11_drain_without_publish_allocates",
             "Obligations.alloc_count_slots", "Obligations.alloc_drain_publishes", "Obligations.C11_extracted_after_drain",
